@@ -7,9 +7,11 @@ package main
 
 import (
 	"context"
+	"errors"
 	"fmt"
 	"io"
 	"sync"
+	"sync/atomic"
 	"time"
 
 	aftpb "github.com/openconfig/gribi/v1/proto/gribi_aft"
@@ -26,10 +28,22 @@ type drainStream struct {
 	mu    sync.Mutex
 	out   []*spb.ModifyResponse
 	delay time.Duration
+	// pre: the time a Send needs before the message is on its way (encoding); a Send that has not
+	// got that far when the handler returns is lost, as on a real stream whose status has been written
+	pre      time.Duration
+	returned atomic.Bool
+	lost     atomic.Int64
 }
 
 func (f *drainStream) Context() context.Context { return f.ctx }
 func (f *drainStream) Send(m *spb.ModifyResponse) error {
+	if f.pre > 0 {
+		time.Sleep(f.pre)
+	}
+	if f.returned.Load() {
+		f.lost.Add(1)
+		return errors.New("the handler has returned: the stream is closed")
+	}
 	f.mu.Lock()
 	f.out = append(f.out, m)
 	f.mu.Unlock()
@@ -67,7 +81,10 @@ func eofdrainCase(seed uint64, idx int) *CaseSpec {
 		fib := r.IntN(2) == 0
 		st := &drainStream{ctx: context.Background(), in: make(chan *spb.ModifyRequest, 8), delay: time.Duration(100+r.IntN(250)) * time.Microsecond}
 		done := make(chan error, 1)
-		go func() { done <- srv.Modify(st) }()
+		if idx%2 == 1 {
+			st.pre = time.Duration(50+r.IntN(400)) * time.Microsecond
+		}
+		go func() { err := srv.Modify(st); st.returned.Store(true); done <- err }()
 		ack := spb.SessionParameters_RIB_ACK
 		if fib {
 			ack = spb.SessionParameters_RIB_AND_FIB_ACK
